@@ -190,13 +190,15 @@ static void huge_part(void)
 		if (f == F_ISCSI || f == F_T10C)
 			continue; /* int length / needs a 4 GiB destination */
 		int slow = strstr(im->name, "_base") != NULL;
-		if (slow && !v_thorough)
-			continue;
 		if (im->level >= 0 && im->level != CPU_AVX512G2 && im->level != CPU_AVX2 && !(v_thorough && im->level == CPU_SSE))
 			continue;
-		const uint64_t lens[] = { G4, G4 + 1, G4 + 4097, G4 + (16u << 20) + 3 };
-		for (unsigned li = 0; li < 4; li++) {
-			if (!v_thorough && li != 1 && li != 3)
+		/* 2^28+1000 and 2^29+2^20+33: internal chunking constants of the portable code (every kernel, also the table-driven base ones);
+		 * 2^32 and beyond: 32-bit counters (vector kernels in the quick tier, all kernels in the thorough tier) */
+		const uint64_t lens[] = { (1ull << 28) + 1000, (1ull << 29) + (1u << 20) + 33, G4, G4 + 1, G4 + 4097, G4 + (16u << 20) + 3 };
+		for (unsigned li = 0; li < 6; li++) {
+			if (!v_thorough && li != 1 && li != 3 && li != 5)
+				continue;
+			if (slow && !v_thorough && li != 1)
 				continue;
 			if (!v_mine(unit++))
 				continue;
@@ -219,7 +221,7 @@ static void huge_part(void)
 				map[q] = 0;
 				v_eval();
 				if (got != expect) {
-					snprintf(key, sizeof key, "%s huge wrong len=2^32%+lld byte-at=len-%llu", im->name, (long long)(len - G4), (unsigned long long)(len - q));
+					snprintf(key, sizeof key, "%s huge wrong len=%llu byte-at=len-%llu", im->name, (unsigned long long)len, (unsigned long long)(len - q));
 					v_violation(key, "seed=%llx got %llx expected %llx (message: zeros, one byte a7 at offset %llu)", (unsigned long long)sd, (unsigned long long)got, (unsigned long long)expect, (unsigned long long)q);
 					nfail++;
 				}
